@@ -166,12 +166,12 @@ def _parseInventoryLine(line: str) -> Tuple[str, str, int, str, str]:
                 break
             except ValueError:
                 prio_idx += 1
+        location = parts[prio_idx + 1]
     except IndexError:
-        raise ValueError("Could not find priority column")
+        raise ValueError("Could not find priority or location column")
 
     name = ' '.join(parts[: prio_idx - 1])
     typ = parts[prio_idx - 1]
-    location = parts[prio_idx + 1]
     display = ' '.join(parts[prio_idx + 2 :])
     if not display:
         raise ValueError("Display name column cannot be empty")
